@@ -812,6 +812,7 @@ theorem step_mem (s : Sys) (op : Op) (h : ∀ a, op ≠ .inspect a) (h2 : ∀ k,
   | setAnergy a k => simp only [Sys.step, Sys.configT]; split <;> rfl
   | setProfile a pr => simp only [Sys.step, Sys.configT]; split <;> rfl
   | setTreg g => rfl
+  | setThymus t v => rfl
   | train a => exact train_mem s a
   | register a => rfl
   | showP a p => simp only [Sys.step, Sys.showPeptide]; split <;> rfl
@@ -928,7 +929,7 @@ theorem step_genuine (s : Sys) (pre : List Obs) (op : Op) (hwf : op.WF) (h : Mem
     obtain ⟨g1, g3⟩ := h y hy
     exact ⟨wellFormed_of_core _ _ hc g1, provenance_of_core _ _ _ _ hc g3⟩
   | register a | showP a p | train a | flag a b | reset a | resetFA a | dropRecord a | markUpdated a | expire
-    | setRep a k | setAnergy a k | setProfile a pr | setTreg g | peek =>
+    | setRep a k | setAnergy a k | setProfile a pr | setTreg g | setThymus t v | peek =>
     intro x hx
     rw [step_mem s _ (by intro a h; cases h) (by intro a h; cases h) (by intro a h; cases h)
       (by intro a h; cases h) (by intro a h; cases h) (by intro a v st h; cases h)] at hx
@@ -1599,6 +1600,7 @@ theorem step_winv (s : Sys) (a : Nat) (h : List TOp) (op : Op) (inv : WInv s a h
   | pruneOld k => exact inv t ht
   | importSigs d => exact inv t ht
   | setTreg g => exact inv t ht
+  | setThymus t' v => exact inv t ht
   | setCap c => exact inv t ht
   | peek => exact inv t ht
   | forget m => exact inv t ht
